@@ -97,4 +97,17 @@ PROPS = {
         "assumptions": ["field-name typing of IR lists", "name-based call resolution"],
         "design_ref": "DESIGN.md §3.10, §4 C07",
     },
+    "C18": {
+        "rules": ["SETITER", "SORTEDEMIT", "IDORDER", "REPRLEAK", "GLOBALSTATE"],
+        "thorough": [],
+        "technique": "static analysis: set-type inference with function/method/attribute summaries + order-sensitive-consumer rule with triage table; sorted-emission rule; id()/repr()/global-state rules",
+        "level_text": "Structural clauses: no value of set type is consumed in an order-sensitive way in the compiler, rewrites, core, API or front end except at triaged "
+        "sites whose consumer is order-insensitive or sorts; every collection emitted by compile_to_strings is sorted by name (or provably a singleton); nothing orders by "
+        "id()/hash(); repr(Sym)/Sym ids never reach printed or generated text; process-global state that flows into emitted text is classified. Does not decide z3's model choice in unification.",
+        "level_note": "Set typing is inferred from constructors, set algebra, and summaries of set-returning functions/methods/attributes (no full type inference); triage table in rules/determinism.py.",
+        "explanation": "SETITER: infer set-typed expressions; every for/comprehension/list()/tuple()/join/pop/unpack over one must be in the triage table with its reason. SORTEDEMIT: the four emission loops "
+        "sort with a key; _static_helpers singleton. IDORDER/REPRLEAK: expected-zero rules with positive fixtures. GLOBALSTATE: writes to module/class state triaged (D28 known).",
+        "assumptions": ["int hashing is seed-independent", "set typing by local inference and summaries"],
+        "design_ref": "DESIGN.md §3.18, §4 C18",
+    },
 }
